@@ -148,8 +148,11 @@ where
     pattern.push_str("(?s)^");
     encode(Grouping::Capture, None, &mut pattern, tree);
     pattern.push('$');
+    // The encoded pattern is always well formed, so the regular expression engine only reports a
+    // syntax error when the pattern exceeds one of its limits (nesting depth of groups, counts of
+    // bounded repetitions). This too means that the program is too large.
     Regex::new(&pattern).map_err(|error| match error {
-        RegexError::CompiledTooBig(_) => CompileError {
+        RegexError::CompiledTooBig(_) | RegexError::Syntax(_) => CompileError {
             kind: CompileErrorKind::OversizedProgram,
         },
         _ => panic!("failed to compile glob"),
